@@ -301,6 +301,9 @@ def c18():
         for k, v in extremes.items():
             open(os.path.join(ext, k), "w").write(v)
             inputs.append(os.path.join(ext, k))
+        import stagecheck as _sc
+
+        inputs += _sc.wide_types(chk)
         outcome_hist = {}
         for path in inputs:
             rep = h.ask("stages %s 6" % path)
